@@ -73,6 +73,7 @@ def badClause (sys : Sys) (isLoop : Bool) (s : St) : Option String :=
   else if !noParkAfterStop sys s then some "parks-after-stop"
   else if !(if isLoop then loopExit s else exitOnlyByStop s) then some "wrong-exit"
   else if !releasedB sys (exitGood isLoop) s then some "not-released"
+  else if !progress sys s then some "deadlock"
   else none
 
 partial def bfs (sys : Sys) (nodes : Array Node) (index : Std.HashMap Nat (List Nat)) (i : Nat) : Array Node :=
